@@ -8,6 +8,8 @@ Pagination idioms of the explorer (src/index.rs accessors and src/subcommand/ser
                   `get_galleries_paginated`).
 * `pageChecked` — the same with the **unchecked** `page_index * page_size` of the children / parents
                   accessors (usize, 64 bit): a panic branch in the dev profile.
+* `pageKids`    — the children / parents accessors: `pageChecked`, or `pageSat` once
+                  `notes/fix-C18-page-overflow.diff` is applied (flag from `Generated/ViewsFixes.lean`).
 * `pageSat`     — `page_index.saturating_mul(page_size)` (sat listing, in-block listing, galleries).
 * `pageNoPop`   — `runes_paginated`: takes `size + 1` and does **not** pop the extra entry.
 * `nthSigned`   — `get_inscription_id_by_sat_indexed`: `nth(i)` for `i ≥ 0`,
@@ -33,6 +35,12 @@ def pageSat {α : Type} (l : List α) (size page : Nat) : List α × Bool :=
   let skip := if page * size < USIZE then page * size else USIZE - 1
   let w := (l.drop skip).take (size + 1)
   (w.take size, decide (size < w.length))
+
+/-- the children / parents accessors as the source has them: with the repair
+`notes/fix-C18-page-overflow.diff` (`fixed`) the skip is `page_index.saturating_mul(page_size)`,
+without it the unchecked product -/
+def pageKids {α : Type} (fixed : Bool) (l : List α) (size page : Nat) : Outcome (List α × Bool) :=
+  if fixed then .ok (pageSat l size page) else pageChecked l size page
 
 /-- `runes_paginated`: the look-ahead entry is returned with the page -/
 def pageNoPop {α : Type} (l : List α) (size page : Nat) : List α × Bool :=
